@@ -11,6 +11,14 @@
 //   enq1r        task_arena a(1, reserved 1) (no worker slot: mandatory concurrency must supply a worker), P = 2
 //   enq0w        global_control max_allowed_parallelism = 1 (zero workers soft limit) + enqueue into task_arena a(2)
 //   enq2a        two arenas competing for one worker, one enqueue into each
+//   enqrace<P>   enqueue A; spin until it ran; enqueue B (it races with the out_of_work of the worker that ran A and
+//                found nothing more), spin until B ran; then a third enqueue the same way
+//   In every enq* scenario the DEMAND MONITOR (arena_enqueue_mandatory on the implementation) is evaluated at EVERY
+//   scheduling point: whenever no enqueue of the harness is between its begin and its return, neither arena flag is in
+//   its transient `busy` state and my_fifo_task_stream is non-empty: my_mandatory_concurrency and my_pool_state are SET,
+//   arena::my_mandatory_requests >= 1, my_total_num_workers_requested >= 1, the client's min_workers == 1 and
+//   max_workers >= 1, the proxy's my_num_mandatory_requests >= 1, and with a zero soft limit
+//   my_is_mandatory_concurrency_enabled and the serializer's my_soft_limit >= 1.  Verdict "DEMAND-LOST ..." otherwise.
 //   bq           concurrent_bounded_queue capacity 1: external producer pushes 3 (blocking), external consumer pops 3
 //   bq2          capacity 1, two producers (2 items each), one consumer (4 pops)
 //   mtx<N>       tbb::mutex: N external threads, each 2 x { lock; critical section of 2 atomic steps; unlock }
@@ -27,6 +35,9 @@
 #include "tbb/governor.h"
 #include "tbb/arena.h"
 #include "tbb/thread_data.h"
+#include "tbb/threading_control.h"
+#include "tbb/thread_request_serializer.h"
+#include "tbb/pm_client.h"
 #include <cstdio>
 #include <cstring>
 #include <sstream>
@@ -54,6 +65,55 @@ static void name_arena(tbb::task_arena& a, const char* suffix) {
     if (g_mons.empty()) reg_monitor(ar->get_waiting_threads_monitor(), "waiting_threads_monitor");
     verif::name_addr(&ar->my_pool_state.my_state, std::string("pool_state") + suffix);
     verif::name_addr(&ar->my_mandatory_concurrency.my_state, std::string("mandatory") + suffix);
+}
+
+// ---- demand monitor (arena_enqueue_mandatory, evaluated on the real state at every scheduling point) -------------------
+struct WatchedArena { tbb::detail::r1::arena* ar; std::string name; };
+static std::vector<WatchedArena> g_watch;
+static std::atomic<int> g_enq_inflight_raw{0};       // harness enqueues between begin and return (read via .a: no scheduling point)
+static std::string g_demand_fail;
+static long g_demand_checks = 0, g_demand_nonempty = 0;
+static void watch_arena(tbb::task_arena& a, const char* name) {
+    if (tbb::detail::r1::arena* ar = a.my_arena.load()) g_watch.push_back(WatchedArena{ar, name});
+}
+static void demand_monitor() {
+    using namespace tbb::detail::r1;
+    if (!g_demand_fail.empty() || g_enq_inflight_raw.a.load(std::memory_order_relaxed) != 0) return;
+    for (auto& w : g_watch) {
+        arena* ar = w.ar;
+        std::uintptr_t fm = ar->my_mandatory_concurrency.my_state.a.load(std::memory_order_relaxed);
+        std::uintptr_t fp = ar->my_pool_state.my_state.a.load(std::memory_order_relaxed);
+        if (fm > 1 || fp > 1) continue;                                     // a clear transaction is in progress
+        g_demand_checks++;
+        if (ar->my_fifo_task_stream.population.a.load(std::memory_order_relaxed) == 0) continue;
+        g_demand_nonempty++;
+        threading_control_impl* tci = ar->my_threading_control->my_pimpl.get();
+        thread_request_serializer_proxy* px = tci->my_thread_request_serializer.get();
+        pm_client* pc = ar->my_tc_client.get_pm_client();
+        int nm = px->my_num_mandatory_requests.a.load(std::memory_order_relaxed);
+        bool en = px->my_is_mandatory_concurrency_enabled;
+        int soft = px->my_serializer.my_soft_limit;
+        char buf[400];
+        bool ok = fm == 1 && fp == 1 && ar->my_mandatory_requests >= 1 && ar->my_total_num_workers_requested >= 1 &&
+                  pc->my_min_workers == 1 && pc->my_max_workers >= 1 && nm >= 1 && soft >= 1;
+        if (!ok) {
+            snprintf(buf, sizeof buf, "DEMAND-LOST arena %s: enqueued task present, no enqueue in progress, but mandatory_flag=%lu pool_flag=%lu "
+                     "my_mandatory_requests=%d my_total_num_workers_requested=%d min_workers=%d max_workers=%d num_mandatory=%d enabled=%d soft_limit=%d",
+                     w.name.c_str(), (unsigned long)fm, (unsigned long)fp, ar->my_mandatory_requests, ar->my_total_num_workers_requested,
+                     pc->my_min_workers, pc->my_max_workers, nm, (int)en, soft);
+            g_demand_fail = buf;
+        }
+    }
+}
+struct MonitoredSchedule : verif::Schedule {
+    verif::Schedule& inner;
+    explicit MonitoredSchedule(verif::Schedule& s) : inner(s) {}
+    int pick(int cur, const std::vector<int>& en, size_t step) override { demand_monitor(); return inner.pick(cur, en, step); }
+};
+template <class F> static void monitored_enqueue(tbb::task_arena& a, F f) {
+    g_enq_inflight_raw.a.fetch_add(1, std::memory_order_relaxed);
+    a.enqueue(f);
+    g_enq_inflight_raw.a.fetch_sub(1, std::memory_order_relaxed);
 }
 
 static std::vector<std::function<void()>> make_bodies() {
@@ -88,8 +148,10 @@ static std::vector<std::function<void()>> make_bodies() {
         });
     } else if (sc.compare(0, 3, "enq") == 0) {
         bodies.push_back([sc] {
-            size_t P = 2; int conc = 2; unsigned reserved = 1; int narenas = 1;
-            if (sc == "enq1r") { P = 2; conc = 1; reserved = 1; }
+            size_t P = 2; int conc = 2; unsigned reserved = 1; int narenas = 1; int rounds = 1;
+            if (sc.compare(0, 7, "enqrace") == 0) { P = (size_t)atoi(sc.c_str() + 7); conc = 2; rounds = 3; }
+            else if (sc == "enq1r") { P = 2; conc = 1; reserved = 1; }
+            else if (sc == "enqallres") { P = 2; conc = 2; reserved = 2; }      // exploration only: every slot reserved for external threads
             else if (sc == "enq0w") { P = 1; conc = 2; }
             else if (sc == "enq2a") { P = 2; conc = 2; narenas = 2; }
             else { P = (size_t)atoi(sc.c_str() + 3); conc = (int)P; }
@@ -98,13 +160,16 @@ static std::vector<std::function<void()>> make_bodies() {
             {
                 std::atomic<int> ran{0};
                 tbb::task_arena a(conc, reserved), b(conc, reserved);
-                a.initialize(); name_arena(a, "");
-                if (narenas == 2) { b.initialize(); name_arena(b, "B"); }
-                verif::note("enqueue_begin");
-                a.enqueue([&ran] { ran.fetch_add(1); });
-                verif::note("enqueue_end");
-                if (narenas == 2) b.enqueue([&ran] { ran.fetch_add(1); });
-                spin_until(ran, narenas);          // nobody waits inside the arena
+                a.initialize(); name_arena(a, ""); watch_arena(a, "A");
+                if (narenas == 2) { b.initialize(); name_arena(b, "B"); watch_arena(b, "B"); }
+                for (int r = 0; r < rounds; ++r) {
+                    verif::note("enqueue_begin");
+                    monitored_enqueue(a, [&ran] { ran.fetch_add(1); });
+                    verif::note("enqueue_end");
+                    if (narenas == 2) monitored_enqueue(b, [&ran] { ran.fetch_add(1); });
+                    spin_until(ran, narenas * (r + 1));          // nobody waits inside the arena
+                }
+                g_watch.clear();                                 // the arenas are about to be destroyed
             }
             tbb::finalize(h);
         });
@@ -203,8 +268,11 @@ static bool run_once(verif::Schedule& sch, long run_idx, bool show_sched) {
     verif::clear_names();
     auto bodies = make_bodies();
     if (bodies.empty()) { printf("bad-scenario\n"); exit(2); }
-    verif::Result r = verif::run(bodies, sch, 4000000);
+    g_watch.clear(); g_demand_fail.clear(); g_enq_inflight_raw.a.store(0);
+    MonitoredSchedule msch(sch);
+    verif::Result r = verif::run(bodies, msch, 4000000);
     std::string verdict = "ok";
+    if (!g_demand_fail.empty()) verdict = g_demand_fail;
     if (r.deadlock) {
         verdict = "DEADLOCK all-threads-parked:";
         for (int t : r.parked) verdict += " " + std::to_string(t);
@@ -257,6 +325,7 @@ int main(int argc, char** argv) {
         runs++;
     }
     printf("sites fence=%zu rmw=%zu dirty=%zu %s\n", g_nfence, g_nrmw, g_ndirty, g_first_dirty.c_str());
+    printf("demand checks=%ld nonempty=%ld\n", g_demand_checks, g_demand_nonempty);
     printf("summary runs=%ld bad=%ld\n", runs, bad);
     return bad ? 1 : 0;
 }
